@@ -1269,7 +1269,16 @@ func isFastForward(s storer.EncodedObjectStorer, old, newHash plumbing.Hash, sha
 			}
 			return false, err
 		}
-		parentsToIgnore = append(parentsToIgnore, shallowCommit.ParentHashes...)
+		for _, parent := range shallowCommit.ParentHashes {
+			// Only parents that are really absent must be kept away from
+			// the walker. A parent that is stored locally (for instance
+			// because another branch reaches it) is ordinary history and
+			// must stay visitable, also as the starting commit.
+			if exists, err := objectExists(s, parent); err == nil && exists {
+				continue
+			}
+			parentsToIgnore = append(parentsToIgnore, parent)
+		}
 	}
 
 	found := false
